@@ -276,6 +276,9 @@ def spoil_memberships(requests: List[Dict[str, Any]], rng: random.Random, has_fl
         if rng.random() < p:
             r["fleet"] = None if has_fleets else "fx"
             r["skipped_by_design"] = True
+        elif rng.random() < p / 2:
+            r["malformed"] = True          # a row that cannot be parsed (an empty coordinate): skipped with an error message
+            r["skipped_by_design"] = True
 
 
 def gen_queue_world(rng: random.Random, n_steps: int, variant: Optional[str] = None) -> Dict[str, Any]:
